@@ -162,6 +162,10 @@ def step (s : St) (line : String) : St × String :=
     | some n, some v => evStep s (.push n v)
     | _, _ => (s, "bad-op")
   | ["scope", "pop"] => evStep s .pop
+  | ["scope", "drop", i] =>
+    match i.toNat? with
+    | some i => evStep s (.drop i)
+    | none => (s, "bad-op")
   | "msg" :: _ =>
     match kvNat t "level", kvNat t "class", kvInt t "errnr", kvInt t "line", kvHex t "file",
           kvInt t "pid", kvNat t "tid", kvInt t "time", kvNat t "us", kvHex t "text",
